@@ -5,10 +5,19 @@
   which is what both `Huffman` and `HuTucker` produce. That the implementation's
   tables *are* such path sets (and, for Hu-Tucker, that the leaves are in
   alphabetical order) is checked on every run by rebuilding the tree from the
-  exported table in the Lean driver (`codes` stream). The chunked decoding table
-  is compared with the answers of the dictionaries that use it (partial).
+  exported table in the Lean driver (`codes` stream).
+
+  The chunked decoding table: `processChunk`/`getSubstring` are modelled (`CSD.ChunkDec`) and proved to
+  decode exactly what the code tree decodes for every table whose entries are sound (`TableOK`); that the
+  tables the builder produces *are* sound is checked on every run for all 2^16 indices of the tables of
+  real dictionaries (`chunk-table` stream), where the model is also run on the real table against the real
+  routine. The builder itself (which chunks get multi-symbol entries) is not modelled — the theorems hold
+  for every choice it could make.
 -/
 import CSD.Lemmas.Codes
+import CSD.Lemmas.ChunkDec
+import CSD.Generated.Bodies
+import CSD.Model.SourceText
 
 namespace CSD.Props.C18
 open CSD.Codes
@@ -34,12 +43,76 @@ theorem decoding_inverts_encoding (t : Tree) (w : List Nat) (bits rest : List Bo
     (h : encode t w = some bits) : decode t w.length (bits ++ rest) = some (w, rest) :=
   decode_encode t w bits rest h
 
-/-- `chunk_table_partial`: the 16-bit chunk table (`DecodingTable`, with its escape
-to subtrees for longer codewords) is not modelled; its answers are compared with
-the specification through every HTFC/HHTFC/RPHTFC/HASHHF/HASHUFFDAC query.
-Non-vacuity: a three-leaf alphabetic tree. -/
+open CSD.ChunkDec in
+/-- **A `processChunk` step decodes what the code tree decodes**: over every table whose entries are sound
+for the tree, from every scan state, the symbols the step writes are the next symbols the tree decodes
+from the bit stream (padded with zeros to one chunk), and the stream is left right behind their codewords
+(an entry that ends a string may swallow padding behind the terminator). Covers the listed-string entries
+and the escape to a subtree for codewords longer than the chunk, with the byte-wise refill. -/
+theorem chunk_step_decodes (t : Tree) (k : Nat) (table : Nat → Option Entry) (hT : TableOK t k table)
+    (c : Scan) (out : List Nat) (flag : Bool) (c' : Scan)
+    (h : processChunk table k c = some (out, flag, c')) :
+    out ≠ [] ∧ ∃ r, decode t out.length (padTo k (stream c.pend c.bytes)) = some (out, r) ∧
+      (r = stream c'.pend c'.bytes ∨ (out.getLast? = some 0 ∧ ∃ d, stream c'.pend c'.bytes = r.drop d)) :=
+  processChunk_sound t k table hT c out flag c' h
+
+open CSD.ChunkDec in
+/-- **On an encoded text, wherever it starts relative to byte boundaries**: if the stream (pending bits,
+then whole bytes) is the encoding of `w` followed by anything, the symbols written are the next symbols
+of `w`, and the scan is left at the encoding of the rest of `w`. -/
+theorem chunk_step_on_encoded_text (t : Tree) (k : Nat) (table : Nat → Option Entry) (hT : TableOK t k table)
+    (c : Scan) (out : List Nat) (flag : Bool) (c' : Scan)
+    (h : processChunk table k c = some (out, flag, c'))
+    (w : List Nat) (enc rest : List Bool) (henc : encode t w = some enc)
+    (hs : padTo k (stream c.pend c.bytes) = enc ++ rest) (hm : out.length ≤ w.length) :
+    out = w.take out.length ∧
+      (out.getLast? ≠ some 0 →
+        ∃ e2, encode t (w.drop out.length) = some e2 ∧ stream c'.pend c'.bytes = e2 ++ rest) :=
+  processChunk_on_encoded t k table hT c out flag c' h w enc rest henc hs hm
+
+open CSD.ChunkDec in
+/-- **The step never fails** — no table index without an entry, no byte read past the bucket — when the
+table covers all `2^k` indices and the stream starts with a whole codeword. -/
+theorem chunk_step_total (t : Tree) (k : Nat) (table : Nat → Option Entry) (hT : TableOK t k table)
+    (hcov : ∀ i, i < 2 ^ k → (table i).isSome) (hd : depth t ≤ 64) (c : Scan)
+    (hcw : (decodeSym t (padTo k (stream c.pend c.bytes))).isSome) :
+    (processChunk table k c).isSome :=
+  processChunk_total t k table hT hcov hd c hcw
+
+open CSD.ChunkDec in
+/-- **The end-of-string flag**: `true` means a terminator was written; `strLen` stops right behind it and
+the symbols behind it are counted as extracted in advance. -/
+theorem chunk_flag_marks_terminator (t : Tree) (k : Nat) (table : Nat → Option Entry) (hT : TableOK t k table)
+    (c : Scan) (out : List Nat) (c' : Scan) (h : processChunk table k c = some (out, true, c')) :
+    ∃ e, c'.strLen = c.strLen + e ∧ 1 ≤ e ∧ e ≤ out.length ∧ out[e - 1]? = some 0 ∧
+      (c'.advanced = out.length - e ∨ (out.length = 1 ∧ c'.advanced = c.advanced)) :=
+  processChunk_flag_true t k table hT c out c' h
+
+/-- Non-vacuity: the code {0 ↦ 0, 1 ↦ 10, 2 ↦ 11} with 2-bit chunks: index 01 lists the symbol 0 (1 bit),
+index 10 the symbol 1; the table is sound and a step over the byte 0b0100_0000 writes symbol 0. -/
+example :
+    let t : Tree := .node (.leaf 0) (.node (.leaf 1) (.leaf 2))
+    let table : Nat → Option ChunkDec.Entry := fun i =>
+      if i = 0 then some (.str [0, 0] 2 true) else if i = 1 then some (.str [0] 1 true)
+      else if i = 2 then some (.str [1] 2 false) else if i = 3 then some (.str [2] 2 false) else none
+    (∀ i, i < 4 → ((table i).map (ChunkDec.entryOK t 2 i)) = some true) ∧
+    (ChunkDec.processChunk table 2 { pend := [], bytes := [64], strLen := 0, advanced := 0, extracted := 5 }).map (·.1) = some [0] := by
+  refine ⟨?_, by decide⟩
+  intro i hi
+  have : i = 0 ∨ i = 1 ∨ i = 2 ∨ i = 3 := by omega
+  rcases this with rfl | rfl | rfl | rfl <;> decide
+
+/-- Non-vacuity of the code-tree theorems: a three-leaf alphabetic tree. -/
 example : ordered (.node (.leaf 0) (.node (.leaf 1) (.leaf 2))) ∧
     codes (.node (.leaf 0) (.node (.leaf 1) (.leaf 2))) = [(0, [false]), (1, [true, false]), (2, [true, true])] := by
   refine ⟨⟨trivial, ⟨trivial, trivial, ?_⟩, ?_⟩, rfl⟩ <;> simp [leaves]
+
+/-- The models this file's theorems are about were written against the current text of the C++
+functions they mirror (`CSD/Generated/Bodies.lean` is re-extracted from the sources on every run,
+`CSD/Model/SourceText.lean` is what was reviewed): an edit of one of these functions breaks this
+obligation even if no generated input tells the behaviours apart. -/
+theorem models_match_source_text :
+    Generated.body_DecodingTable_getSubstring = SourceText.body_DecodingTable_getSubstring ∧
+    Generated.body_DecodingTable_processChunk = SourceText.body_DecodingTable_processChunk := ⟨rfl, rfl⟩
 
 end CSD.Props.C18
